@@ -21,7 +21,7 @@ from ref import secp, sighash as rs, stdverify, txmodel as tm
 from sim.core import SimDeadlock, plan_rng
 
 WORLD = "sighash"
-HANG_S = 25
+HANG_S = 60
 TIME_UNIT = "logical time: operations applied to the transaction object (no timers in this world)"
 
 COMPONENTS = {
